@@ -215,6 +215,24 @@ def match_link(link, cmps, ctx, allow_rename=True):
     left, op, right = link
     rn = sorted(set(_names(left)) | set(_names(right)))
     moved = None
+    res = _match_link(link, cmps, ctx, allow_rename, strict_names=True)
+    if res is None and allow_rename and all(x in ctx.locals for x in rn):
+        # every variable of the row still exists but none of the function's comparisons is over them (not even with another
+        # cut): a variable may have been replaced by the value it was a copy of (`r = v; .. oldr.size > r.size` written as
+        # `oldr.size > v.size`).  Only an exact match counts here, never a `moved` one
+        res = _match_link(link, cmps, ctx, True, strict_names=False)
+        if res is not None and res[0] != "ok":
+            res = None
+    return res
+
+
+def _match_link(link, cmps, ctx, allow_rename, strict_names):
+    import itertools
+    import re
+
+    left, op, right = link
+    rn = sorted(set(_names(left)) | set(_names(right)))
+    moved = None
     for c in cmps:
         # local names occurring in the code comparison (after inlining)
         txt = " ".join(str(k) for k, v in c[0][1])
@@ -223,7 +241,7 @@ def match_link(link, cmps, ctx, allow_rename=True):
             continue
         # the row is written with the function's variable names: while they all still exist, they denote themselves;
         # only if one of them is gone (renamed) are the row's variables matched up to renaming
-        if all(x in ctx.locals for x in rn):
+        if strict_names and all(x in ctx.locals for x in rn):
             perms = [tuple(rn)]
         elif allow_rename:
             perms = itertools.permutations(cn, len(rn))
